@@ -22,16 +22,19 @@ def trRuleFN (N : NamesN) (r : C11.Rule) : Policy.Rule :=
     srcNet := r.srcNet.map N.cidr, notSrcNet := r.notSrcNet.map N.cidr,
     dstNet := r.dstNet.map N.cidr, notDstNet := r.notDstNet.map N.cidr }
 
-/-- `EnvRel` plus: the kernel's CIDR containment agrees with the numeric one. -/
-structure EnvRelN (N : NamesN) (env9 : Netfilter.Env) (pkt9 : Netfilter.Packet) (env : Env) (p : Pkt) : Prop where
+/-- `EnvRel` plus: the kernel's CIDR containment agrees with the numeric one on the CIDRs `U` the policy
+state mentions. -/
+structure EnvRelN (N : NamesN) (U : List Net) (env9 : Netfilter.Env) (pkt9 : Netfilter.Packet) (env : Env) (p : Pkt) :
+    Prop where
   base : EnvRel N.toNames env9 pkt9 env p
-  netS : ∀ n, n.v6 = false → env9.netContains (N.cidr n) pkt9.src = netContains false p.src n
-  netD : ∀ n, n.v6 = false → env9.netContains (N.cidr n) pkt9.dst = netContains false p.postDst n
+  netS : ∀ n ∈ U, n.v6 = false → env9.netContains (N.cidr n) pkt9.src = netContains false p.src n
+  netD : ∀ n ∈ U, n.v6 = false → env9.netContains (N.cidr n) pkt9.dst = netContains false p.postDst n
 
-/-- The extended fragment with IPv4 CIDR lists. -/
-structure RuleFullN (r : C11.Rule) : Prop where
+/-- The extended fragment with IPv4 CIDR lists (taken from `U`). -/
+structure RuleFullN (U : List Net) (r : C11.Rule) : Prop where
   rest : RuleFull (clearNets r)
   v4 : ∀ n ∈ r.srcNet ++ r.notSrcNet ++ r.dstNet ++ r.notDstNet, n.v6 = false
+  sub : ∀ n ∈ r.srcNet ++ r.notSrcNet ++ r.dstNet ++ r.notDstNet, n ∈ U
 
 theorem filterRule_v4nets (r : Rule) (hip : r.ipVersion = 0)
     (hv : ∀ n ∈ r.srcNet ++ r.notSrcNet ++ r.dstNet ++ r.notDstNet, n.v6 = false) :
@@ -62,9 +65,14 @@ theorem netContains_zero (a : List (BitVec 32)) (n : Net) (hv : n.v6 = false) (h
   simp only [isZeroNet, Bool.and_eq_true, beq_iff_eq] at hz
   simp [netContains, netContains4, hz.1, hz.2, mask32bv]
 
+theorem all_not_eq {α : Type} (l : List α) (f : α → Bool) : l.all (fun x => !f x) = !l.any f := by
+  induction l with
+  | nil => rfl
+  | cons x xs ih => simp only [List.all_cons, List.any_cons, ih, Bool.not_or]
+
 /-- positive CIDR list -/
 theorem posNet_bridge (N : NamesN) (env9 : Netfilter.Env) (a9 : Nat) (a : List (BitVec 32)) (nets : List Net)
-    (hv : ∀ n ∈ nets, n.v6 = false) (hn : ∀ n, n.v6 = false → env9.netContains (N.cidr n) a9 = netContains false a n) :
+    (hv : ∀ n ∈ nets, n.v6 = false) (hn : ∀ n ∈ nets, env9.netContains (N.cidr n) a9 = netContains false a n) :
     Policy.posNetOK env9 false (nets.map N.cidr) a9 = (nets.isEmpty || nets.any (netContains false a)) := by
   unfold Policy.posNetOK Policy.familyOK Policy.netHas
   cases nets with
@@ -74,22 +82,18 @@ theorem posNet_bridge (N : NamesN) (env9 : Netfilter.Env) (a9 : Nat) (a : List (
       simp [N.cidrFam, hv x List.mem_cons_self]
     have hany : ((x :: xs).map N.cidr).any (fun c => Policy.cidrIsV6 c == false && env9.netContains c a9) =
         (x :: xs).any (netContains false a) := by
-      rw [any_map_eq N.cidr _ (fun n => (n.v6 == false) && netContains false a n) (x :: xs)
-        (fun n => by simp only [N.cidrFam]; cases hq : n.v6 <;> simp [hn n, hq])]
-      exact any_congr_mem _ _ _ (fun n hnm => by simp [hv n hnm])
+      rw [List.any_map]
+      exact any_congr_mem _ _ _ (fun n hnm => by
+        simp only [Function.comp, N.cidrFam, hv n hnm, beq_self_eq_true, Bool.true_and]; exact hn n hnm)
     simp only [List.map_cons, List.isEmpty_cons, Bool.false_or] at hfam hany ⊢
     rw [hfam, hany]; rfl
 
 /-- negated CIDR list (no 0.0.0.0/0 among them is not required here) -/
 theorem negNet_bridge (N : NamesN) (env9 : Netfilter.Env) (a9 : Nat) (a : List (BitVec 32)) (nets : List Net)
-    (hv : ∀ n ∈ nets, n.v6 = false) (hn : ∀ n, n.v6 = false → env9.netContains (N.cidr n) a9 = netContains false a n) :
+    (hv : ∀ n ∈ nets, n.v6 = false) (hn : ∀ n ∈ nets, env9.netContains (N.cidr n) a9 = netContains false a n) :
     Policy.negNetOK env9 false (nets.map N.cidr) a9 = nets.all (fun n => !netContains false a n) := by
   unfold Policy.negNetOK Policy.familyOK Policy.netHas
-  have hall : nets.all (fun n => !netContains false a n) = !nets.any (netContains false a) := by
-    induction nets with
-    | nil => rfl
-    | cons x xs ih =>
-      simp only [List.all_cons, List.any_cons, ih (fun n hn' => hv n (List.mem_cons_of_mem _ hn')), Bool.not_or]
+  have hall : nets.all (fun n => !netContains false a n) = !nets.any (netContains false a) := all_not_eq nets _
   rw [hall]
   cases nets with
   | nil => rfl
@@ -98,9 +102,9 @@ theorem negNet_bridge (N : NamesN) (env9 : Netfilter.Env) (a9 : Nat) (a : List (
       simp [N.cidrFam, hv x List.mem_cons_self]
     have hany : ((x :: xs).map N.cidr).any (fun c => Policy.cidrIsV6 c == false && env9.netContains c a9) =
         (x :: xs).any (netContains false a) := by
-      rw [any_map_eq N.cidr _ (fun n => (n.v6 == false) && netContains false a n) (x :: xs)
-        (fun n => by simp only [N.cidrFam]; cases hq : n.v6 <;> simp [hn n, hq])]
-      exact any_congr_mem _ _ _ (fun n hnm => by simp [hv n hnm])
+      rw [List.any_map]
+      exact any_congr_mem _ _ _ (fun n hnm => by
+        simp only [Function.comp, N.cidrFam, hv n hnm, beq_self_eq_true, Bool.true_and]; exact hn n hnm)
     simp only [List.map_cons, List.isEmpty_cons, Bool.false_or] at hfam hany ⊢
     rw [hfam, hany]; rfl
 
@@ -129,8 +133,8 @@ theorem ruleMatches_noNets (N : Names) (env9 : Netfilter.Env) (r0 : C11.Rule) (p
   simp [Policy.ruleMatches, Policy.netsMatch, Policy.posNetOK, Policy.negNetOK, Policy.familyOK, trRuleF, h0]
 
 /-- **Same match decision under both references, IPv4 CIDR criteria included.** -/
-theorem ruleMatches_fullN {N : NamesN} {env9 : Netfilter.Env} {pkt9 : Netfilter.Packet} {env : Env} {p : Pkt}
-    (he : EnvRelN N env9 pkt9 env p) (r : C11.Rule) (hr : RuleFullN r) :
+theorem ruleMatches_fullN {N : NamesN} {U : List Net} {env9 : Netfilter.Env} {pkt9 : Netfilter.Packet} {env : Env}
+    {p : Pkt} (he : EnvRelN N U env9 pkt9 env p) (r : C11.Rule) (hr : RuleFullN U r) :
     Policy.ruleMatches env9 (C08.setNameFor false) (trRuleFN N r) pkt9 =
       (match filterRule env.c.v6 r with
        | none => false
@@ -138,16 +142,22 @@ theorem ruleMatches_fullN {N : NamesN} {env9 : Netfilter.Env} {pkt9 : Netfilter.
   have hv := hr.v4
   have hv' := hv
   simp only [List.mem_append] at hv'
+  have hsub := hr.sub
+  simp only [List.mem_append] at hsub
   have hip : r.ipVersion = 0 := hr.rest.noNet.1
   have hrest := ruleMatches_full he.base (clearNets r) hr.rest
   rw [ruleMatches_noNets N.toNames env9 (clearNets r) pkt9 hr.rest.noNet] at hrest
   -- the Model/Policy side: CIDR clauses and the rest
   have hL : Policy.ruleMatches env9 (C08.setNameFor false) (trRuleFN N r) pkt9 =
       (netsPart env p r && C11.ruleMatch env p .dest (clearNets r)) := by
-    have e1 := posNet_bridge N env9 pkt9.src p.src r.srcNet (fun n hn => hv' n (by simp [hn])) he.netS
-    have e2 := negNet_bridge N env9 pkt9.src p.src r.notSrcNet (fun n hn => hv' n (by simp [hn])) he.netS
-    have e3 := posNet_bridge N env9 pkt9.dst p.postDst r.dstNet (fun n hn => hv' n (by simp [hn])) he.netD
-    have e4 := negNet_bridge N env9 pkt9.dst p.postDst r.notDstNet (fun n hn => hv' n (by simp [hn])) he.netD
+    have e1 := posNet_bridge N env9 pkt9.src p.src r.srcNet (fun n hn => hv' n (by simp [hn]))
+      (fun n hn => he.netS n (hsub n (by simp [hn])) (hv' n (by simp [hn])))
+    have e2 := negNet_bridge N env9 pkt9.src p.src r.notSrcNet (fun n hn => hv' n (by simp [hn]))
+      (fun n hn => he.netS n (hsub n (by simp [hn])) (hv' n (by simp [hn])))
+    have e3 := posNet_bridge N env9 pkt9.dst p.postDst r.dstNet (fun n hn => hv' n (by simp [hn]))
+      (fun n hn => he.netD n (hsub n (by simp [hn])) (hv' n (by simp [hn])))
+    have e4 := negNet_bridge N env9 pkt9.dst p.postDst r.notDstNet (fun n hn => hv' n (by simp [hn]))
+      (fun n hn => he.netD n (hsub n (by simp [hn])) (hv' n (by simp [hn])))
     have hiv : (trRuleFN N r).ipVersion = 0 := hip
     simp only [Policy.ruleMatches, hiv, beq_self_eq_true, Bool.true_or, Bool.true_and, restMatch_clear, hrest,
       Policy.netsMatch, he.base.pv4]
@@ -180,8 +190,8 @@ theorem ruleMatches_fullN {N : NamesN} {env9 : Netfilter.Env} {pkt9 : Netfilter.
     rw [ruleMatch_split env p r]
 
 /-- The rule bridge with IPv4 CIDR criteria. -/
-theorem ruleBridge_fullN {N : NamesN} {env9 : Netfilter.Env} {pkt9 : Netfilter.Packet} {env : Env} {p : Pkt}
-    (he : EnvRelN N env9 pkt9 env p) : RuleBridge env9 pkt9 env p (trRuleFN N) RuleFullN :=
+theorem ruleBridge_fullN {N : NamesN} {U : List Net} {env9 : Netfilter.Env} {pkt9 : Netfilter.Packet} {env : Env}
+    {p : Pkt} (he : EnvRelN N U env9 pkt9 env p) : RuleBridge env9 pkt9 env p (trRuleFN N) (RuleFullN U) :=
   ⟨fun r hr => ⟨hr.rest.act, rfl⟩, fun r hr => ruleMatches_fullN he r hr⟩
 
 end CalicoVerif.C12
